@@ -204,3 +204,64 @@ def union_mixture_uses_the_volume_ratio_of_the_row_own_parameters(S):
         return zreal(pts.at([q[0], c])) == z3.If(take_a, zreal(ta.at([q[0], c])), zreal(tb.at([q[0], c])))
 
     S.forall("row-is-the-A-sample-iff-B-sample-in-A-or-draw-below-its-own-volume-ratio", Tensor(pts), goal)
+
+
+# ----------------------------------------------------------------------------- dependent product: thinning of the second factor
+PROD = "torchphysics.problem.domains.domainoperations.product.ProductDomain"
+
+
+@scenario("C11", [PROD + "._sample_uniform_b_points"], configs=["two-calls-on-one-domain"])
+def dependent_product_thins_the_second_factor_with_an_envelope_of_the_batch(S):
+    """per-call clause of 'a product A(y) x B is sampled uniformly': the proposals y_j ~ U(B) are kept with probability
+    proportional to vol A(y_j), for EVERY outcome of the generator and on every call of one domain object (the
+    rejection loop calls it repeatedly, and so do later sample requests):
+      (common threshold)  a kept proposal j and a proposal k with  u_k / V_k <= u_j / V_j  => k is kept too,
+      (envelope)          a kept proposal j satisfies  V_k * u_j < V_j  for EVERY proposal k of the batch, i.e. the
+                          envelope the draws are scaled with is at least the largest volume of THIS batch -- otherwise
+                          the acceptance probability of the large-volume proposals is clipped at 1 and the law flattens.
+    history: the two clauses are demanded for a first call and for a second call with other parameters / batch size."""
+    A = abstract_domain(S, "A", S.new(R2, "x"), {"y": 1, "t": 1})
+    B = abstract_domain(S, "B", S.new(R1, "y"), {"t": 1})
+    dom = S.new(PROD, A.obj, B.obj)
+    rands = S.ctx.ghost.setdefault("rand", [])
+    for call in ("first", "second"):
+        n = S.int(f"n_{call}", 2)
+        Tt = S.tensor(f"tt_{call}", [1, 1])
+        params = S.new(POINTS, Tt, S.new(R1, "t"))
+        nb, nr = len(B.calls), len(rands)
+        out = S.method(dom, "_sample_uniform_b_points", n, params)
+        ok = isinstance(out, tuple) and len(out) == 3 and len(B.calls) == nb + 1 and len(rands) == nr + 1
+        S.ensure(f"{call}:one-batch-of-proposals-one-uniform-draw", ok)
+        if not ok:
+            return
+        bp = out[1].f["_t"]
+        g = bp.meta.get("gather")
+        ok = g is not None and getattr(g[1][0], "mask_src", None) is not None
+        S.ensure(f"{call}:kept-proposals-are-a-selection-of-the-batch", ok)
+        if not ok:
+            return
+        mask = g[1][0].mask_src.val
+        prop = B.calls[-1]["tensor"].val
+        u = rands[-1].val
+        ok = mask.rank == 1 and u.rank == 1 and mask.shape[0].size_term() == zint(n) and prop.shape[0].size_term() == zint(n)
+        S.ensure(f"{call}:one-decision-and-one-draw-per-proposal", ok)
+        if not ok:
+            return
+        tk = zreal(Tt.val.at([(), ()]))
+        j, k = z3.Int(f"j_{call}"), z3.Int(f"k_{call}")
+        hy = [j >= 0, j < zint(n), k >= 0, k < zint(n)]
+
+        def row(i):
+            comps = core.STensor(prop.shape, None).shape[0].factors
+            ix = [(i,) if len(comps) == 1 else tuple(__import__("tpv.tshape", fromlist=["x"]).flat_comps(prop.shape[0], i))]
+            return zreal(prop.at(ix + [()]))
+
+        V = lambda i: A.vol_term([row(i), tk])
+        U = lambda i: zreal(u.at([(i,)]))
+        M = lambda i: mask.at([(i,)])
+        for i in (j, k):
+            S.assume(V(i) > 0)  # operand contract: positive measure
+            M(i)  # instantiates the axioms of the selection at both proposals
+        inst = S.minmax_cross_instances() + S.schema_instances([(j,), (k,)])
+        S.ensure(f"{call}:envelope-is-at-least-every-volume-of-this-batch", z3.Implies(M(j), V(k) * U(j) < V(j)), hy + inst)
+        S.ensure(f"{call}:common-threshold-on-draw-over-volume", z3.Implies(z3.And(M(j), U(k) * V(j) <= U(j) * V(k)), M(k)), hy + inst)
